@@ -66,7 +66,9 @@ class Rel:
         self.colorder_unspec = False   # column ORDER not fixed by the documentation (after a non-aggregating group)
 
     def copy(self):
-        return Rel(list(self.cols), list(self.rows), None if self.okeys is None else list(self.okeys), self.sort_exprs)
+        r = Rel(list(self.cols), list(self.rows), None if self.okeys is None else list(self.okeys), self.sort_exprs)
+        r.colorder_unspec = self.colorder_unspec
+        return r
 
 
 def lookup(cols, qual, name):
@@ -442,7 +444,8 @@ def add_named(cols, new):
     cols = list(cols)
     for (q, n) in new:
         if n is not None:
-            cols = [((None, None) if cn == n else (cq, cn)) for (cq, cn) in cols]
+            # columns of different relations of a join may share a name (they stay addressable by qualifier)
+            cols = [((None, None) if (cn == n and (q is None or cq is None or cq == q)) else (cq, cn)) for (cq, cn) in cols]
         cols.append((q, n))
     return cols
 
@@ -766,32 +769,30 @@ def _vclass(v):
 
 
 def _value_diff(mrows, arows):
-    """If the two bags differ in exactly one column, classify the difference."""
+    """Classify a bag difference column-wise: if every differing column differs by values of one
+    class turning into values of one other class (e.g. 0 -> NULL), name that class pair."""
     if not mrows or len(mrows) != len(arows):
         return None
     ncol = len(mrows[0])
-    cands = []
+    if any(len(r) != ncol for r in arows) or any(len(r) != ncol for r in mrows):
+        return None
+    import collections
+    pairs = set()
     for j in range(ncol):
-        proj = lambda rows: bag([tuple(v for i, v in enumerate(r) if i != j) for r in rows])
-        if any(len(r) != ncol for r in arows):
+        mb = collections.Counter(canon_row((r[j],))[0] for r in mrows)
+        ab = collections.Counter(canon_row((r[j],))[0] for r in arows)
+        only_m = mb - ab
+        only_a = ab - mb
+        if not only_m and not only_a:
+            continue
+        cm = {_vclass(v) for v in only_m}
+        ca = {_vclass(v) for v in only_a}
+        if len(cm) != 1 or len(ca) != 1:
             return None
-        if proj(mrows) == proj(arows):
-            cands.append(j)
-    if not cands:
-        return None
-    j = cands[0]
-    ms = sorted((canon_row(r) for r in mrows), key=repr)
-    as_ = sorted((canon_row(r) for r in arows), key=repr)
-    mb, ab = bag(mrows), bag(arows)
-    only_m = [r for r in mb if mb[r] > ab.get(r, 0)]
-    only_a = [r for r in ab if ab[r] > mb.get(r, 0)]
-    if not only_m or not only_a:
-        return None
-    # pair rows agreeing outside column j
-    for rm in sorted(only_m, key=repr):
-        for ra in sorted(only_a, key=repr):
-            if all(val_eq(x, y) for i, (x, y) in enumerate(zip(rm, ra)) if i != j):
-                return "value_diff:%s->%s" % (_vclass(rm[j]), _vclass(ra[j]))
+        pairs.add((cm.pop(), ca.pop()))
+    if len(pairs) == 1:
+        m, a = pairs.pop()
+        return "value_diff:%s->%s" % (m, a)
     return None
 
 
